@@ -1,7 +1,7 @@
 """C11 - all Finders give the same answer for the same data"""
 from ..rules import exc, search, config, forward, pathops, mutation, data
 
-DECIDES = ("non-conforming files never break or change a search: nothing escapes the scan loop (R-EXC), a found path is dropped only for the named reasons and yielded behind the falsy / type-mismatch skips (R-SKIPS), a foreign path is never typed (R-REFORMAT); local and server are the same tables up to the root (R-ROOT / R-IDEM) and every FindInPaths threads its own configuration (R-FWD); sibling find implementations agree on unfolding (R-UNFOLDALL); FindInAll dispatches per Finder instance (R-GROUPFINDER). Also: one sort and one groupby decide '>' in every finder (R-SORT); routing by type alone (R-FINDERROUTE). The data sidecar of an entity is a hidden sibling of its path (R-SIDECAR), so a file-system search never meets it.")
+DECIDES = ("non-conforming files never break or change a search: nothing escapes the scan loop (R-EXC), a found path is dropped only for the named reasons and yielded behind the falsy / type-mismatch skips (R-SKIPS), a foreign path is never typed (R-REFORMAT); local and server are the same tables up to the root (R-ROOT / R-IDEM) and every FindInPaths threads its own configuration (R-FWD); sibling find implementations agree on unfolding (R-UNFOLDALL); FindInAll dispatches per Finder instance (R-GROUPFINDER). Also: one sort and one groupby decide '>' in every finder (R-SORT); routing by type alone (R-FINDERROUTE). The data sidecar of an entity is a hidden sibling of its path (R-SIDECAR), so a file-system search never meets it. FindInConstants lists exactly the closed vocabulary the templates accept for its key (R-CONSTVOCAB); no swallowed sid template (R-DEADTYPE); FindInPaths lists with glob.glob, does not rewrite found paths, and never leaves the loop over the typed searches by return (R-SKIPS).")
 DOES_NOT_DECIDE = 'equality of result sets across finders'
 
 
@@ -22,4 +22,6 @@ def rules(ctx, tier):
         lambda: mutation.rule_mut(ctx),
         lambda: forward.rule_fwd_assid(ctx),
         lambda: search.rule_constvalid(ctx),
+        lambda: config.rule_constvocab(ctx),
+        lambda: config.rule_deadtype(ctx),
     ]
